@@ -20,24 +20,69 @@ use crate::rt::{self, RunCtx};
 
 type Fut = Pin<Box<dyn Future<Output = ()> + Send>>;
 
+/// Bytes reserved per wait future in the arena (the futures are an Arc / pointer plus an Awaiter).
+const SLOT: usize = 256;
+
+/// The wait futures live in one arena, at positions chosen by the stimulus: AwaiterSet::notify_one picks head or tail
+/// by comparing their ADDRESSES in debug builds, so the layout is part of the schedule (a TLC behaviour that notifies
+/// "the tail" is only replayable if the tail awaiter has the higher address).
+pub struct Arena {
+    buf: Vec<u128>,
+}
+impl Arena {
+    fn new(slots: usize) -> Self {
+        Self { buf: vec![0u128; slots * SLOT / 16] }
+    }
+    fn slot(&self, i: usize) -> *mut u8 {
+        unsafe { self.buf.as_ptr().cast::<u8>().cast_mut().add(i * SLOT) }
+    }
+}
+
+/// A future stored in an arena slot; the box only holds the pointer.
+struct InPlace<F> {
+    ptr: *mut F,
+}
+unsafe impl<F: Send> Send for InPlace<F> {}
+impl<F: Future<Output = ()>> Future for InPlace<F> {
+    type Output = ();
+    fn poll(self: Pin<&mut Self>, cx: &mut Context<'_>) -> Poll<()> {
+        // SAFETY: the slot is never moved or reused while this box lives
+        let ptr = self.ptr;
+        unsafe { Pin::new_unchecked(&mut *ptr) }.poll(cx)
+    }
+}
+impl<F> Drop for InPlace<F> {
+    fn drop(&mut self) {
+        unsafe { std::ptr::drop_in_place(self.ptr) }
+    }
+}
+
+/// (future, start address, length) with the real future placed at `slot`
+fn place<F: Future<Output = ()> + Send + 'static>(slot: *mut u8, f: F) -> (Fut, usize, usize) {
+    assert!(std::mem::size_of::<F>() <= SLOT && std::mem::align_of::<F>() <= 16);
+    let ptr = slot.cast::<F>();
+    unsafe { ptr.write(f) };
+    (Box::pin(InPlace { ptr }), slot as usize, std::mem::size_of::<F>())
+}
+
 pub trait Ev: Send + Sync {
     fn set(&self);
     fn reset(&self);
     fn try_wait(&self) -> bool;
-    fn wait(&self) -> Fut;
+    fn wait(&self, slot: *mut u8) -> (Fut, usize, usize);
 }
 
 impl Ev for AutoResetEvent {
     fn set(&self) { AutoResetEvent::set(self) }
     fn reset(&self) {}
     fn try_wait(&self) -> bool { AutoResetEvent::try_wait(self) }
-    fn wait(&self) -> Fut { Box::pin(AutoResetEvent::wait(self)) }
+    fn wait(&self, slot: *mut u8) -> (Fut, usize, usize) { place(slot, AutoResetEvent::wait(self)) }
 }
 impl Ev for ManualResetEvent {
     fn set(&self) { ManualResetEvent::set(self) }
     fn reset(&self) { ManualResetEvent::reset(self) }
     fn try_wait(&self) -> bool { ManualResetEvent::try_wait(self) }
-    fn wait(&self) -> Fut { Box::pin(ManualResetEvent::wait(self)) }
+    fn wait(&self, slot: *mut u8) -> (Fut, usize, usize) { place(slot, ManualResetEvent::wait(self)) }
 }
 
 /// Embedded variants: the container is pinned on the heap and kept alive by the Arc for as long as any handle or
@@ -48,13 +93,13 @@ impl Ev for EmbAuto {
     fn set(&self) { unsafe { AutoResetEvent::embedded(self.place.as_ref()) }.set() }
     fn reset(&self) {}
     fn try_wait(&self) -> bool { unsafe { AutoResetEvent::embedded(self.place.as_ref()) }.try_wait() }
-    fn wait(&self) -> Fut { Box::pin(unsafe { AutoResetEvent::embedded(self.place.as_ref()) }.wait()) }
+    fn wait(&self, slot: *mut u8) -> (Fut, usize, usize) { place(slot, unsafe { AutoResetEvent::embedded(self.place.as_ref()) }.wait()) }
 }
 impl Ev for EmbManual {
     fn set(&self) { unsafe { ManualResetEvent::embedded(self.place.as_ref()) }.set() }
     fn reset(&self) { unsafe { ManualResetEvent::embedded(self.place.as_ref()) }.reset() }
     fn try_wait(&self) -> bool { unsafe { ManualResetEvent::embedded(self.place.as_ref()) }.try_wait() }
-    fn wait(&self) -> Fut { Box::pin(unsafe { ManualResetEvent::embedded(self.place.as_ref()) }.wait()) }
+    fn wait(&self, slot: *mut u8) -> (Fut, usize, usize) { place(slot, unsafe { ManualResetEvent::embedded(self.place.as_ref()) }.wait()) }
 }
 
 pub fn make_event(kind: &str, storage: &str) -> Arc<dyn Ev> {
@@ -67,16 +112,19 @@ pub fn make_event(kind: &str, storage: &str) -> Arc<dyn Ev> {
 }
 
 /// One wait slot of a task: the live future (if any), whether it completed, polls so far.
-#[derive(Default)]
 pub struct Slot {
     fut: Option<Fut>,
+    start: usize,
     ready: bool,
     polls: i64,
+    /// where this task's wait futures are placed
+    place: *mut u8,
 }
-
-fn fut_range(f: &Fut) -> (usize, usize) {
-    let r: &(dyn Future<Output = ()> + Send) = &**f;
-    (std::ptr::from_ref(r).cast::<u8>() as usize, std::mem::size_of_val(r))
+unsafe impl Send for Slot {}
+impl Slot {
+    fn new(place: *mut u8) -> Self {
+        Self { fut: None, start: 0, ready: false, polls: 0, place }
+    }
 }
 
 /// Executes one call on behalf of the current process; returns false if the call is not applicable (skipped).
@@ -102,9 +150,9 @@ fn exec_op(ev: &Arc<dyn Ev>, ctx: &Arc<RunCtx>, slot: &mut Slot, w: i64, op: &st
                 return false; // a completed future must not be polled again
             }
             if slot.fut.is_none() {
-                let f = ev.wait();
-                let (s, l) = fut_range(&f);
+                let (f, s, l) = ev.wait(slot.place);
                 ctx.add_wait(s, l, w);
+                slot.start = s;
                 slot.fut = Some(f);
             }
             slot.polls += 1;
@@ -125,7 +173,7 @@ fn exec_op(ev: &Arc<dyn Ev>, ctx: &Arc<RunCtx>, slot: &mut Slot, w: i64, op: &st
         }
         "drop" => {
             let Some(f) = slot.fut.take() else { return false };
-            let (s, _) = fut_range(&f);
+            let s = slot.start;
             rt::begin_op("drop", w, 0);
             let r = vrt::catch(move || drop(f));
             ctx.remove_wait(s);
@@ -159,7 +207,28 @@ fn run_one(st: &Value) -> Vec<Value> {
     };
     let ctx = RunCtx::new(steps);
     let ev = make_event(&kind, &storage);
-    let slots: Vec<Arc<Mutex<Slot>>> = (0..n).map(|_| Arc::new(Mutex::new(Slot::default()))).collect();
+    // layout: "order" lists the wait ids from the lowest to the highest address
+    let arena = Arc::new(Arena::new(n + 1));
+    let mut rank: Vec<usize> = (0..n).collect();
+    if let Some(o) = st["order"].as_array() {
+        let ord: Vec<usize> = o.iter().filter_map(|x| x.as_u64()).map(|x| x as usize).filter(|x| *x >= 1 && *x <= n).collect();
+        let mut seen = vec![false; n];
+        let mut pos = 0;
+        for w in ord {
+            if !seen[w - 1] {
+                seen[w - 1] = true;
+                rank[w - 1] = pos;
+                pos += 1;
+            }
+        }
+        for w in 0..n {
+            if !seen[w] {
+                rank[w] = pos;
+                pos += 1;
+            }
+        }
+    }
+    let slots: Vec<Arc<Mutex<Slot>>> = (0..n).map(|t| Arc::new(Mutex::new(Slot::new(arena.slot(rank[t]))))).collect();
     let mut ex = Exec::new(strategy, seed);
     ex.max_steps = 5_000;
     for (t, prog) in progs.iter().enumerate() {
@@ -195,7 +264,7 @@ fn run_one(st: &Value) -> Vec<Value> {
                 exec_op(&ev, &ctx, &mut slot, t as i64 + 1, "drop");
             }
         }
-        let mut dummy = Slot::default();
+        let mut dummy = Slot::new(arena.slot(n));
         exec_op(&ev, &ctx, &mut dummy, 0, "try");
         rt::leave();
     }
@@ -220,6 +289,7 @@ fn run_one(st: &Value) -> Vec<Value> {
         // stuck threads are leaked together with the event and the futures they own
         std::mem::forget(slots);
         std::mem::forget(ev);
+        std::mem::forget(Arc::clone(&arena));
     }
     out
 }
